@@ -382,6 +382,41 @@ fn pair_laws(a: &Value, b: &Value, out: &mut CaseOut) {
     }
 }
 
+/// The laws of C19 on a wrapper type (`Item`, `Attr`) whose relations are defined through those of the
+/// values inside: the wrapper's own `==`, `cmp`, `partial_cmp` and `Hash` must be coherent with each
+/// other, and two wrappers built the same way from `a` and `b` are equal exactly when `a == b`.
+fn wrapper_laws<T: Eq + Ord + Hash + std::fmt::Debug>(what: &str, x: &T, y: &T, inner_eq: bool, inner_cmp: Ordering, out: &mut CaseOut) {
+    out.events += 1;
+    let hash = |t: &T| {
+        let mut h = Fnv::default();
+        t.hash(&mut h);
+        h.finish()
+    };
+    let eq = x == y;
+    let c = x.cmp(y);
+    let detail = || json!({"x": format!("{x:?}"), "y": format!("{y:?}")});
+    if eq != (y == x) {
+        out.violation(P, format!("wrapper/{what}/eq-symmetry"), "x == y differs from y == x", detail());
+    }
+    if eq != inner_eq {
+        out.violation(P, format!("wrapper/{what}/eq-differs-from-content"), format!("the wrappers are equal: {eq}; their contents are equal: {inner_eq}"), detail());
+    }
+    if eq && hash(x) != hash(y) {
+        out.violation(P, format!("wrapper/{what}/eq-implies-hash"), "x == y but the hashes differ", detail());
+    }
+    if c != y.cmp(x).reverse() {
+        out.violation(P, format!("wrapper/{what}/cmp-antisymmetry"), format!("cmp(x,y) = {c:?}, cmp(y,x) = {:?}", y.cmp(x)), detail());
+    }
+    // The order of the wrappers built the same way is the order of what differs inside them; the known
+    // int/float tie of `Value` (cmp Equal, not ==) shows through and is not reported a second time here.
+    if c != inner_cmp {
+        out.violation(P, format!("wrapper/{what}/cmp-differs-from-content"), format!("cmp of the wrappers is {c:?}, of the contents {inner_cmp:?}"), detail());
+    }
+    if x.partial_cmp(y) != Some(c) {
+        out.violation(P, format!("wrapper/{what}/partial-cmp-agrees"), format!("partial_cmp = {:?} but cmp = {c:?}", x.partial_cmp(y)), detail());
+    }
+}
+
 fn triple_laws(a: &Value, b: &Value, c: &Value, rel: (bool, bool, bool, Ordering, Ordering, Ordering), out: &mut CaseOut) {
     let (eq_ab, eq_bc, eq_ac, c_ab, c_bc, c_ac) = rel;
     if eq_ab && eq_bc && !eq_ac {
@@ -441,6 +476,40 @@ fn main() {
             out.add("pairs", n as u64);
             out.add("pairs_equal_across_kinds", eq_other_kind);
             if i < 3 {
+                out.set_sample(json!({"a": show(a), "partners": n}));
+            }
+        },
+    );
+
+    // `Item` and `Attr` have relations of their own (used inside records); their `PartialOrd` impls are
+    // never reached through `Value`.
+    s.part(
+        "items-attrs",
+        "one case per pool value a: for every pool value b the value items, slots (a/b as key under a fixed value and as value under a fixed key) and attributes (same name) built from a and b: ==, cmp, partial_cmp and Hash of Item and Attr are coherent and agree with the relations of the values inside; attributes with different names and a slot against a value item are never equal; distinct by row",
+        true,
+        n as u64,
+        |i, _rng, out| {
+            let a = &pool[i as usize];
+            let fixed = Value::text("k");
+            for b in &pool {
+                let (e, c) = (a == b, a.cmp(b));
+                wrapper_laws("value-item", &Item::ValueItem(a.clone()), &Item::ValueItem(b.clone()), e, c, out);
+                wrapper_laws("slot-key", &Item::Slot(a.clone(), fixed.clone()), &Item::Slot(b.clone(), fixed.clone()), e, c, out);
+                wrapper_laws("slot-value", &Item::Slot(fixed.clone(), a.clone()), &Item::Slot(fixed.clone(), b.clone()), e, c, out);
+                wrapper_laws("attr", &Attr::of(("name", a.clone())), &Attr::of(("name", b.clone())), e, c, out);
+                let (x, y) = (Attr::of(("name", a.clone())), Attr::of(("other", b.clone())));
+                if x == y || x.cmp(&y) == Ordering::Equal || x.partial_cmp(&y) != Some(x.cmp(&y)) {
+                    out.violation(P, "wrapper/attr/names-differ", "attributes with different names are equal, compare Equal, or partial_cmp differs from cmp", json!({"a": show(a), "b": show(b)}));
+                }
+                let (x, y) = (Item::ValueItem(a.clone()), Item::Slot(a.clone(), b.clone()));
+                if x == y || x.cmp(&y) != y.cmp(&x).reverse() || x.partial_cmp(&y) != Some(x.cmp(&y)) || (x.cmp(&y) == Ordering::Equal) {
+                    out.violation(P, "wrapper/item/value-item-vs-slot", "a value item and a slot are equal, compare Equal, or their order is not antisymmetric", json!({"a": show(a), "b": show(b)}));
+                }
+                out.events += 2;
+            }
+            out.nontrivial = true;
+            out.add("wrapper-pairs", 6 * n as u64);
+            if i < 2 {
                 out.set_sample(json!({"a": show(a), "partners": n}));
             }
         },
